@@ -34,7 +34,8 @@ type Acct struct {
 
 // Sub is a subscriber with one account per rating group 1..3.
 type Sub struct {
-	Acct [3]Acct `json:"acct"`
+	Acct   [3]Acct `json:"acct"`
+	Suffix string  `json:"suffix,omitempty"` // digits appended to a case-unique SUPI base (C10: one SUPI a prefix of another)
 }
 
 // Cont is one used-unit container.  Pm >= 0 makes the total volume relative
@@ -71,9 +72,10 @@ type Op struct {
 }
 
 type Hist struct {
-	Subs []Sub `json:"subs"`
-	Ops  []Op  `json:"ops"`
-	TZ   int   `json:"tz,omitempty"` // host zone offset in seconds (C02)
+	Subs []Sub  `json:"subs"`
+	Ops  []Op   `json:"ops"`
+	TZ   int    `json:"tz,omitempty"`  // host zone offset in seconds (C02)
+	Seq  uint64 `json:"seq,omitempty"` // position of the global record counter at the start (C10)
 }
 
 // ------------------------------------------------------------- world state
@@ -143,8 +145,18 @@ var chargingIDSeq int32 = 1000
 
 func NewWorld(hst Hist) *World {
 	w := &World{}
+	base := ""
 	for _, sp := range hst.Subs {
-		st := &subState{supi: env.NewSupi()}
+		st := &subState{}
+		if sp.Suffix != "" || base != "" {
+			if base == "" {
+				base = env.NewSupi()
+			}
+			st.supi = base + sp.Suffix
+			env.Track(st.supi)
+		} else {
+			st.supi = env.NewSupi()
+		}
 		for i, a := range sp.Acct {
 			rg := int32(i + 1)
 			env.SetAccount(st.supi, rg, a.Bal, fmt.Sprint(a.Cost))
